@@ -322,3 +322,8 @@ PLANS["C11"].proofs += [("contracts.registry", "ArraySetstate")]        # unpick
 _INBASE = [("contracts.routes", "InBase"), ("contracts.routes", "InBaseQuantity"), ("contracts.routes", "ConvertToBase")]
 for _pid in ("C03", "C10", "C17", "C18"):
     PLANS[_pid].proofs += _INBASE
+
+# arctan2: commensurable operands only (C01), the angle of the SI magnitudes as a pure number (C04)
+_AT2 = [("contracts.ufunc", n) for n in _U.ARCTAN2]
+PLANS["C01"].proofs += _AT2
+PLANS["C04"].proofs += _AT2
